@@ -78,4 +78,49 @@ theorem fileOf_map_of_mem {β : Type} (f : String × String → β) (acts : List
       simp [fileOf, this]
     · simp [fileOf, ih hu.2 hm']
 
+theorem lookup_none_not_mem {β : Type} (k : String) (l : List (String × β)) (h : (lookup k l).isSome = false) :
+    k ∉ l.map Prod.fst := by
+  induction l with
+  | nil => simp
+  | cons x r ih =>
+    obtain ⟨k', v⟩ := x
+    simp only [lookup] at h
+    split at h
+    · simp at h
+    · rename_i hne
+      simp only [List.map_cons, List.mem_cons, not_or]
+      exact ⟨fun e => hne e.symm, ih h⟩
+
+theorem lookup_some_mem {β : Type} (k : String) (v : β) (l : List (String × β)) (h : lookup k l = some v) :
+    (k, v) ∈ l := by
+  induction l with
+  | nil => simp [lookup] at h
+  | cons x r ih =>
+    obtain ⟨k', v'⟩ := x
+    simp only [lookup] at h
+    split at h
+    · rename_i e
+      cases h; subst e; exact List.mem_cons_self
+    · exact List.mem_cons_of_mem _ (ih h)
+
+/-- the parser never lets a role hold two actions of one name -/
+theorem addActions_nodup (acc more res : List (String × String)) (hacc : (acc.map Prod.fst).Nodup)
+    (h : addActions acc more = some res) : (res.map Prod.fst).Nodup := by
+  induction more generalizing acc with
+  | nil => simp [addActions] at h; subst h; exact hacc
+  | cons x r ih =>
+    obtain ⟨n, c⟩ := x
+    simp only [addActions] at h
+    split at h
+    · cases h
+    · rename_i hn
+      have hn' : (lookup n acc).isSome = false := by simpa using hn
+      refine ih (acc ++ [(n, c)]) ?_ h
+      rw [List.map_append, List.nodup_append]
+      refine ⟨hacc, by simp, ?_⟩
+      intro a ha b hb
+      simp at hb; subst hb
+      intro e; subst e
+      exact lookup_none_not_mem _ _ hn' ha
+
 end Shk.Script
